@@ -13,7 +13,7 @@
 //! from /proc/self/task/*/comm, not from the hooks.  A hang never hangs the harness: the caller runs on
 //! its own thread and the process leaves with std::process::exit.
 //!
-//!   pool random <runs> <out.ndjson> [maxN] [maxTasks]     summary on stdout
+//!   pool random <runs> <out.ndjson> [maxN] [maxTasks] [scale]     summary on stdout
 //!   pool gated  <out.ndjson>   < behaviours.jsonl         one result line per behaviour + summary
 use humphrey::monitor::event::{Event, EventType};
 use humphrey::monitor::MonitorConfig;
@@ -486,6 +486,8 @@ fn random_mode(args: &[String]) {
     let mut out = std::fs::File::create(&args[1]).expect("create trace file");
     let max_n: usize = args.get(2).map(|s| s.parse().unwrap()).unwrap_or(8);
     let max_t: usize = args.get(3).map(|s| s.parse().unwrap()).unwrap_or(200);
+    // "scale": every run uses many threads and hundreds of tasks (exact counts under real concurrency)
+    let scale = args.get(4).map(|s| s == "scale").unwrap_or(false);
     let mut rng = Rng::from_env();
     let mut total_events = 0usize;
     let mut total_tasks = 0usize;
@@ -502,17 +504,20 @@ fn random_mode(args: &[String]) {
     let mut outliving_runs = 0usize;
     for run in 0..runs {
         let n = if rng.chance(1, 2) { rng.range(1, 3.min(max_n)) } else { rng.range(1, max_n) };
-        let started = !rng.chance(1, 25);
+        let n = if scale { rng.range((max_n / 2).max(1), max_n) } else { n };
+        let started = scale || !rng.chance(1, 25);
         // one started run in three restarts the pool: (start execute* [stop]) two or three times, then drop
         let segments = if !started {
             0
-        } else if rng.chance(1, 3) {
+        } else if !scale && rng.chance(1, 3) {
             rng.range(2, 3)
         } else {
             1
         };
         let tasks = if !started {
             0
+        } else if scale {
+            rng.range((max_t / 2).max(1), max_t)
         } else if segments > 1 {
             rng.range(1, 24.min(max_t))
         } else {
@@ -524,7 +529,7 @@ fn random_mode(args: &[String]) {
             }
         };
         // one run in eight: exactly n tasks that all wait for each other - only n-fold parallelism gets them through
-        let barrier_run = segments == 1 && rng.chance(1, 8);
+        let barrier_run = segments == 1 && !scale && rng.chance(1, 8);
         let tasks = if barrier_run { n } else { tasks };
         let panic_pct = *rng.pick(&[0usize, 0, 10, 25, 50, 100]);
         let mut kinds: Vec<u8> = vec![0; tasks + 1];
@@ -1080,6 +1085,7 @@ fn gated_mode(args: &[String]) {
             break;
         }
         ok += 1;
+        out_line(&json!({"id": id, "ok": true})); // progress: tells the driver where a crash happened
     }
     out_line(&json!({"summary": true, "mode": "gated", "behaviours": read, "ok": ok, "failed": failed, "steps": steps}));
     std::process::exit(0);
